@@ -253,6 +253,11 @@ func init() {
 		outs := []string{run(ea, a[0], total, np)}
 		_ = run(eb, "9-9-77", 20000, 1)
 		outs = append(outs, run(eb, a[0], total, np), run(ea, a[0], total, np))
+		// several proposals of one resource: repeat on both relayers — nothing but the delivery may decide the order of
+		// the outputs and hence the sighashes
+		for i := 0; np > 1 && i < 6; i++ {
+			outs = append(outs, run(ea, a[0], total, np), run(eb, a[0], total, np))
+		}
 		r := agreeOut(outs)
 		if strings.Contains(r, "|") {
 			return r
